@@ -109,6 +109,23 @@ CHECKS = {
          'DESIGN.md 4/C20'),
 }
 
+# alphabet extensions made after the independent red-team waves and the soundness review (DESIGN.md 11.2b, 11.2c, 11.5)
+EXT = {
+ 'C01': ' Also: B named before A, empty original particle files, light-cone layout, passthrough with an explicit raw column list.',
+ 'C02': ' Also: a second load with the same list object, the subsample index-column groups, and the same sweep with passthrough=True over the raw column names.',
+ 'C03': ' Also: main-progenitor columns (cleaned), files added/removed between two loads, duplicate and mixed-catalog lists (incl. a sibling catalog whose directory name extends the first one\'s) refused or exactly concatenated.',
+ 'C04': ' Also: strided / Fortran / record-field / other-dtype supplied outputs, near-integer float ppd, non-native byte order input.',
+ 'C05': ' Also: request orders of ratio columns and their references, decoy catalogs loaded first in the same process, integer BoxSize, headers in which exactly one unit factor is 1.',
+ 'C07': ' Also: an end-to-end independence run of the whole interpreted front end (wrap, partition, weights, kernel) per accepted configuration with periodic images, distinct weights, sort, and an input order unrelated to the stripes; emptied stripes; the stripe/thread count actually in effect is what is examined.',
+ 'C08': ' Also: odd multipoles, monopole not first, exact zeros in the mesh, a large mesh with closed-form counts.',
+ 'C14': ' Also: call sequences on one compressor object, typed outputs, records wider than 255 bytes; two threads on one object is advisory only.',
+ 'C15': ' Also: non-contiguous / other-dtype supplied outputs, two concurrent decodes (module state), streams of 6.3-10.9 million records made of copies of a short stream.',
+ 'C17': ' Also: every length 0..128 (1024) x thread count 1..16, > 2^16 stripes, 100003 particles, weights of another dtype than the positions.',
+ 'C18': ' Also: input left unmodified / decoded twice, columns longer than the code domain at every length around 2^10..2^18, line-level interleavings of concurrent first decodes.',
+ 'C19': ' Also: non-integral float input into integer output, concat_to_arr offsets surviving later calls.',
+ 'C20': ' Also: file arguments repeated and reordered, column-major and strided columns, field lists that repeat a field.',
+}
+
 NOT_YET = 'check not built yet in this session (planned, DESIGN.md section 4)'
 
 
@@ -125,7 +142,7 @@ def main():
             evidence_file=f'/verif/evidence/{pid}.json',
             replay_cmd_template=f'./check {pid} --replay {{path}}',
             engine='vf.core (E-ENUM) + vf/checks/%s.py' % pid.lower(),
-            level_claimed=dict(category=cat, text=text, design_ref=ref),
+            level_claimed=dict(category=cat, text=text + EXT.get(pid, ''), design_ref=ref),
             level_note=note,
             technique=tech,
         ))
